@@ -409,3 +409,200 @@ Theorem C06_mutex_reusable : forall n s m i, mutex_ready s m i ->
   seen s (cycles m (length (h_files s)) n) i = cycle_view n.
 Proof. exact mutex_reusable. Qed.
 Print Assumptions C06_mutex_reusable.
+
+(* ------------------------------------------------------------------------------------------------
+   The SOURCE, translated.  harness/go2coq (world mode) translates lockedfile.go,
+   lockedfile_filelock.go, mutex.go and internal/filelock/filelock.go + filelock_unix.go on every
+   run into Gen/LockedFileSrc.v: Gallina functions over an ABSTRACT operating system (a record
+   [os_ops] of uninterpreted operations on an abstract world).  LockedFile/SrcFacts.v proves them
+   equal, for every such record, every world, every argument and every fuel >= 1, to the
+   hand-written program terms of this file's theorems run by the interpreter SrcLib.run_prog
+   over the same operations: same operations, same order, same arguments, same control flow on
+   every result, same returned value.  Premises (SrcLib.v): flock(LOCK_UN) never reports EINTR;
+   what fstat says about "regular file" is the static attribute [a] of the model (a := default_attr
+   gives the plain model).  LockedFile/SrcTheorems.v runs the translated functions on the model's
+   own operating system (SrcModel.model_ops) and restates the release theorems on them. *)
+From Coq Require Import ZArith.
+From GI Require Import Lib.GoSem Lib.GoSemWorld.
+From GI Require Import LockedFile.LockedFileA LockedFile.Policy LockedFile.PolicyCall.
+From GI Require Import LockedFile.SrcLib Gen.LockedFileSrc LockedFile.SrcFacts LockedFile.SrcModel LockedFile.SrcTheorems.
+Import GoNotations.
+Local Open Scope go_scope.
+
+(* filelock.lock: flock is repeated while it reports EINTR, and only then; an error is wrapped in
+   a PathError; the model's Retry (OFlock how) is that loop *)
+Theorem C06_source_lock_retries_eintr : forall (OS : os_ops) fuel w f how,
+  fl_lock OS fuel w f how =
+  (x <- flock_retry OS fuel f how w ;; Ok (fst x, lock_err OS how f (snd x))).
+Proof. exact lock_eq. Qed.
+Print Assumptions C06_source_lock_retries_eintr.
+
+Theorem C06_source_retry_is_the_loop : forall (OS : os_ops) path perm n how f w,
+  retry_op OS path perm n (OFlock how) f w =
+  (x <- flock_retry OS n f (Z.of_N how) w ;;
+   Ok (fst x, f, res_of_err (snd x), lock_err OS (Z.of_N how) f (snd x))).
+Proof. exact retry_flock. Qed.
+Print Assumptions C06_source_retry_is_the_loop.
+
+(* closeFile: unlock, then close (cl_w1/cl_w2: the worlds after the two calls), the unlock's error
+   first; the model's close_prog performs exactly these two operations *)
+Theorem C06_source_closeFile : forall OS : os_ops, unlock_no_eintr OS ->
+  forall fuel w f, 1 <= fuel ->
+  lf_closeFile OS fuel w f = Ok (cl_w2 OS f w, cl_err OS f w).
+Proof. exact closeFile_eq. Qed.
+Print Assumptions C06_source_closeFile.
+
+Theorem C06_source_close_prog : forall OS : os_ops, unlock_no_eintr OS ->
+  forall path perm fuel k f w h e,
+  run_prog OS path perm fuel (close_prog k) f w h e =
+  run_prog OS path perm fuel k f (cl_w2 OS f w)
+    ((OClose, res_of_err (cl_e2 OS f w)) :: (OFlock filelock_unlock_arg, res_of_err (cl_e1 OS f w)) :: h)
+    (first_err (first_err e (lock_err OS (Z.of_N filelock_unlock_arg) f (cl_e1 OS f w))) (cl_e2 OS f w)).
+Proof. exact run_close. Qed.
+Print Assumptions C06_source_close_prog.
+
+(* openFile = the model's open_file_prog (here with the continuation that ends where openFile
+   returns): world, handle (nil on failure) and error value (that of the first failing
+   operation) are read off the run *)
+Theorem C06_source_openFile : forall OS : os_ops, unlock_no_eintr OS ->
+  forall a : attr, stat_static OS (a_regular a) ->
+  forall fuel w name flags perm f0 h, 1 <= fuel ->
+  lf_openFile OS fuel w name (Z.of_N flags) perm =
+  (x <- run_prog OS name perm fuel (open_only_a a flags) f0 w h WNil ;; Ok (open_out OS x)).
+Proof. exact openFile_eq. Qed.
+Print Assumptions C06_source_openFile.
+
+(* the operations openFile performs, oldest first: no open carries O_TRUNC, and a truncation comes
+   only after the lock request chosen by openFile's switch has been granted *)
+Theorem C06_source_no_truncate_before_lock : forall (OS : os_ops) (a : attr),
+  stat_static OS (a_regular a) ->
+  forall path perm fuel flags f0 w w' f' h' e' r,
+  run_prog OS path perm fuel (open_only_a a flags) f0 w [] WNil = Ok (w', f', h', e', r) ->
+  hist_ok (lock_arg_of_flags flags) false (rev h') = true.
+Proof. exact open_hist_ok. Qed.
+Print Assumptions C06_source_no_truncate_before_lock.
+
+(* the model's open_file_prog with ANY continuation: openFile, then the continuation *)
+Theorem C06_source_open_then : forall (OS : os_ops) (a : attr),
+  stat_static OS (a_regular a) ->
+  forall path perm fuel flags k f0 w h e,
+  run_prog OS path perm fuel (open_file_prog_a a flags k) f0 w h e =
+  (x <- run_prog OS path perm fuel (open_only_a a flags) f0 w h e ;;
+   match x with (w', f', h', e', r) => run_prog OS path perm fuel (k (result_is_ok r)) f' w' h' e' end).
+Proof. exact run_open_k. Qed.
+Print Assumptions C06_source_open_then.
+
+(* OpenFile: a new File (closed = false) around the handle, or nil and the error *)
+Theorem C06_source_OpenFile : forall OS : os_ops, unlock_no_eintr OS ->
+  forall a : attr, stat_static OS (a_regular a) ->
+  forall fuel w name flags perm f0 h, 1 <= fuel ->
+  lf_OpenFile OS fuel w name (Z.of_N flags) perm =
+  (x <- run_prog OS name perm fuel (open_only_a a flags) f0 w h WNil ;; Ok (OpenFile_out OS x)).
+Proof. exact OpenFile_eq. Qed.
+Print Assumptions C06_source_OpenFile.
+
+Theorem C06_source_Open : forall OS : os_ops, unlock_no_eintr OS ->
+  forall a : attr, stat_static OS (a_regular a) ->
+  forall fuel w name f0 h, 1 <= fuel ->
+  lf_Open OS fuel w name =
+  (x <- run_prog OS name 0 fuel (open_only_a a open_flags) f0 w h WNil ;; Ok (OpenFile_out OS x)).
+Proof. exact Open_eq. Qed.
+Print Assumptions C06_source_Open.
+
+Theorem C06_source_Create : forall OS : os_ops, unlock_no_eintr OS ->
+  forall a : attr, stat_static OS (a_regular a) ->
+  forall fuel w name f0 h, 1 <= fuel ->
+  lf_Create OS fuel w name =
+  (x <- run_prog OS name 438 fuel (open_only_a a create_flags) f0 w h WNil ;; Ok (OpenFile_out OS x)).
+Proof. exact Create_eq. Qed.
+Print Assumptions C06_source_Create.
+
+Theorem C06_source_Edit : forall OS : os_ops, unlock_no_eintr OS ->
+  forall a : attr, stat_static OS (a_regular a) ->
+  forall fuel w name f0 h, 1 <= fuel ->
+  lf_Edit OS fuel w name =
+  (x <- run_prog OS name 438 fuel (open_only_a a edit_flags) f0 w h WNil ;; Ok (OpenFile_out OS x)).
+Proof. exact Edit_eq. Qed.
+Print Assumptions C06_source_Edit.
+
+(* (File).Close: the two operations of closeFile and the flag; a second Close performs no
+   operation and reports an error *)
+Theorem C06_source_File_Close : forall OS : os_ops, unlock_no_eintr OS ->
+  forall fuel w f, 1 <= fuel ->
+  lf_File_Close OS fuel w (file_of OS f false) = Ok (cl_w2 OS f w, file_of OS f true, cl_err OS f w).
+Proof. exact File_Close_eq. Qed.
+Print Assumptions C06_source_File_Close.
+
+Theorem C06_source_second_Close : forall (OS : os_ops) fuel w f,
+  exists e, lf_File_Close OS fuel w (file_of OS f true) = Ok (w, file_of OS f true, e) /\
+            werr_is_nil e = false.
+Proof. exact File_Close_closed. Qed.
+Print Assumptions C06_source_second_Close.
+
+(* Mutex.Lock followed by the unlock function it returned = the model's CMutex program; the
+   Mutex value is as before; an empty Path panics *)
+Theorem C06_source_Mutex : forall OS : os_ops, unlock_no_eintr OS ->
+  forall a : attr, stat_static OS (a_regular a) ->
+  forall fuel w (mu : lf_Mutex) f0 h, 1 <= fuel ->
+  lf_Mutex_Path mu <> [] -> lf_Mutex_mu mu = false ->
+  mutex_cycle OS fuel w mu =
+  (x <- run_prog OS (lf_Mutex_Path mu) 438 fuel (prog_of_call_a a CMutex) f0 w h WNil ;;
+   match x with (w', _, _, _, r) => Ok (w', mu, r) end).
+Proof. exact Mutex_eq. Qed.
+Print Assumptions C06_source_Mutex.
+
+Theorem C06_source_Mutex_empty_path_panics : forall (OS : os_ops) fuel w (mu : lf_Mutex),
+  lf_Mutex_Path mu = [] -> lf_Mutex_Lock OS fuel w mu = Panic.
+Proof. exact Mutex_Lock_empty_path. Qed.
+Print Assumptions C06_source_Mutex_empty_path_panics.
+
+(* the translated functions run on the MODEL's operating system under any fault policy pol' (over
+   the history of the operations really made), from any OS state in which the caller has no
+   descriptor (others may hold locks): if the call returns, the caller holds no descriptor and no
+   lock on the file; OutOfFuel = the lock request blocks for ever; never a panic *)
+Theorem C06_source_read_released : forall i c pol' s fuel name, 1 <= fuel ->
+  fds s c = None -> locked c (ltab s i) = None -> refs s c = 0 ->
+  match lf_Read (model_ops i c pol') fuel (s, []) name with
+  | Ok (w', _, _) => released i c (fst w')
+  | OutOfFuel => True
+  | Panic => False
+  end.
+Proof. exact source_read_released. Qed.
+Print Assumptions C06_source_read_released.
+
+Theorem C06_source_write_released : forall i c pol' s fuel name content perm, 1 <= fuel ->
+  fds s c = None -> locked c (ltab s i) = None -> refs s c = 0 ->
+  match lf_Write (model_ops i c pol') fuel (s, []) name content perm with
+  | Ok (w', _) => released i c (fst w')
+  | OutOfFuel => True
+  | Panic => False
+  end.
+Proof. exact source_write_released. Qed.
+Print Assumptions C06_source_write_released.
+
+Theorem C06_source_transform_released : forall i c pol' s fuel name t, 1 <= fuel ->
+  fds s c = None -> locked c (ltab s i) = None -> refs s c = 0 ->
+  match lf_Transform (model_ops i c pol') fuel (s, []) name t with
+  | Ok (w', _) => released i c (fst w')
+  | OutOfFuel => True
+  | Panic => False
+  end.
+Proof. exact source_transform_released. Qed.
+Print Assumptions C06_source_transform_released.
+
+Theorem C06_source_mutex_released : forall i c pol' s fuel (mu : lf_Mutex), 1 <= fuel ->
+  lf_Mutex_Path mu <> [] -> lf_Mutex_mu mu = false ->
+  fds s c = None -> locked c (ltab s i) = None -> refs s c = 0 ->
+  match mutex_cycle (model_ops i c pol') fuel (s, []) mu with
+  | Ok (w', mu', _) => released i c (fst w') /\ mu' = mu
+  | OutOfFuel => True
+  | Panic => False
+  end.
+Proof. exact source_mutex_released. Qed.
+Print Assumptions C06_source_mutex_released.
+
+(* the premises of the equalities are satisfiable: the model's operating system *)
+Theorem C06_source_premises_hold_on_model : forall i c pol',
+  unlock_no_eintr (model_ops i c pol') /\ stat_static (model_ops i c pol') (a_regular default_attr).
+Proof. exact (fun i c pol' => conj (model_unlock_no_eintr i c pol') (model_stat_static i c pol')). Qed.
+Print Assumptions C06_source_premises_hold_on_model.
